@@ -3,8 +3,11 @@ package main
 import (
 	"fmt"
 	"go/ast"
+	"go/constant"
 	"go/token"
 	"go/types"
+	"strconv"
+	"strings"
 )
 
 // loopDirection classifies a loop over slice X: +1 first-to-last, -1 last-to-first, 0 unknown.
@@ -441,4 +444,61 @@ func ruleR04n(c *Ctx) {
 		}
 	}
 	c.floor("R04n", "loop-variable bindings in the generator", 2, n)
+}
+
+// R04o: wherever the generated JavaScript tests a value against null it uses the loose comparison
+// (== null / != null), which also holds for undefined: a key absent from the data is undefined in
+// JavaScript and the Go renderer treats an absent value like null (isNonnull, ?:, null-safe access).
+// A strict comparison (=== null, !== null) tells the two apart in JavaScript only.
+func ruleR04o(c *Ctx) {
+	p := c.pkg("soyjs")
+	if p == nil {
+		return
+	}
+	info := p.TypesInfo
+	loose, strict := 0, 0
+	for _, fd := range c.allFuncDecls("soyjs") {
+		if strings.HasSuffix(c.Fset.Position(fd.Pos()).Filename, "_test.go") {
+			continue
+		}
+		ast.Inspect(fd.Body, func(x ast.Node) bool {
+			bl, ok := x.(*ast.BasicLit)
+			if !ok || bl.Kind != token.STRING {
+				return true
+			}
+			tv := info.Types[bl]
+			if tv.Value == nil || tv.Value.Kind() != constant.String {
+				return true
+			}
+			s := constant.StringVal(tv.Value)
+			for i := 0; i+1 < len(s); i++ {
+				if (s[i] != '=' && s[i] != '!') || s[i+1] != '=' {
+					continue
+				}
+				j := i + 2
+				isStrict := false
+				if j < len(s) && s[j] == '=' {
+					isStrict = true
+					j++
+				}
+				rest := strings.TrimLeft(s[j:], " ")
+				if !strings.HasPrefix(rest, "null") && !strings.HasPrefix(rest, "undefined") {
+					continue
+				}
+				if i > 0 && (s[i-1] == '=' || s[i-1] == '!') {
+					continue
+				}
+				if isStrict {
+					strict++
+					c.bad("R04o", fmt.Sprintf("%s strict-null-comparison#%d", c.declKey("soyjs", fd), strict), bl.Pos(),
+						"the generator emits the strict comparison "+strconv.Quote(s)+": in JavaScript a value absent from the data is undefined and passes a strict test against null, while the Go renderer treats absent and null alike")
+				} else {
+					loose++
+				}
+				i = j
+			}
+			return true
+		})
+	}
+	c.floor("R04o", "loose null comparisons emitted by the generator", 3, loose)
 }
